@@ -1218,9 +1218,16 @@ func TestVerifC27(t *testing.T) {
 
 	r.Rule("per type family a finite shape grammar (optional fields present/absent, every variant, list lengths 0..2, voters 0..3), enumerated completely; " +
 		"each shape is built by the real constructors, JSON-encoded, decoded with the encoder holding all launch.Hinters, and compared (type, hint, hash/HashBytes, IsValid verdict, re-encoded bytes); " +
-		"non-trivial = the object is valid and its document nests at least one other hinted object or a list")
+		"non-trivial = the object is valid and its document nests at least one other hinted object or a list; " +
+		"every case is repeated (a) built by the same constructors at fixed instants of a virtual clock (whole second / millisecond / microsecond / nanoseconds; " +
+		"then every time field of the built object moved to a non-UTC location, and the k-th time field set to the zero time, by reflection), " +
+		"(b) decoded after four decode histories in which every string of the document was first decoded in the other role (address / public key)")
 	r.Assume("objects are built through exported constructors only; the five isaacstates handover messages with unexported constructors are built field-for-field by reflection")
-	r.Assume("signing times, voteproof ids and uuid fields come from the real constructors (wall clock); they are data, not control flow")
+	r.Assume("in the plain cases signing times come from the real constructors (wall clock); voteproof ids and uuid fields are random; they are data, not control flow")
+	r.Assume("in the time variants localtime.Now() reads the virtual clock of vsched (util/localtime/time_sync.go compiled with time.Now -> vtime.Now); " +
+		"a non-UTC location / a zero time is set on the built object by reflection: for fields that only a constructor fills (always UTC) this is a state the public API does not produce")
+	r.Set("time_instants", vlib.Pick(r, "whole-second, nanoseconds, whole-millisecond, whole-microsecond", "whole-second, nanoseconds, whole-millisecond, whole-microsecond, tenth-of-second, last-nanosecond-of-second, last-second-of-day"))
+	r.Set("decode_histories", []string{"strings-seen-as-address", "strings-seen-as-publickey", "strings-seen-as-address-then-publickey", "strings-seen-as-publickey-then-address"})
 
 	enc := vfxNewEncoder()
 	cases := c27Cases(r.Thorough())
